@@ -231,6 +231,22 @@ def order_rules(ctx):
                 pn = [x for x in g[0].param_names() if x and x != "self"]
                 rebound = [l_ for l_ in sir.walk(g[0].body) if l_.get("k") == "local" and pn and any(b == pn[0] for b, _ in sir.pat_bindings(l_["pat"]))]
                 transformed = [x for x in sir.walk(g[0].body) if x.get("k") == "call" and re.search(r"path::(normalize|resolve)$", sir.call_path(x) or "")]
+                # the key handed to `insert` is the parameter or the path stored in the parsed template, copied but not edited
+                edited = []
+                for n in sir.walk(g[0].body):
+                    if n.get("k") == "mcall" and n["m"] == "insert" and sir.expr_str(n["recv"]).endswith("." + m) and n["args"]:
+                        k_ = sir.strip_ref(n["args"][0])
+                        if k_.get("k") == "path" and len(k_["segs"]) == 1 and k_["s"] != (pn[0] if pn else None):
+                            ins_ = [l_["init"] for l_ in sir.walk(g[0].body) if l_.get("k") == "local" and l_["pat"].get("name") == k_["s"] and l_.get("init") is not None]
+                            k_ = sir.strip_ref(ins_[-1]) if ins_ else k_
+                        while k_.get("k") == "mcall" and k_["m"] in ("clone", "to_string", "to_owned", "into", "as_str", "to_compact_string") and not k_["args"]:
+                            k_ = sir.strip_ref(k_["recv"])
+                        if k_.get("k") == "call" and len(k_["args"]) == 1 and re.search(r"(String|CompactString)::from$", sir.call_path(k_) or ""):
+                            k_ = sir.strip_ref(k_["args"][0])
+                        t_ = sir.expr_str(k_).replace(" ", "")
+                        if not (pn and t_ == pn[0]) and not re.fullmatch(r"\w+\.path", t_):
+                            edited.append(t_[:60])
+                transformed = transformed or edited
                 okk = not rebound and not transformed
                 obs.append(ob("C20.order/add/%s/key-verbatim" % name, okk, ctx.where(g[0]), "the path is the key as given: %s" % okk if okk else "the path is rewritten before it is used as the key (%s): two different inputs can collide, and the survivor depends on the order of insertion" % ("rebound" if rebound else "normalised"),
                               witness=None if okk else "add_tmpl('widgets/badge') and add_tmpl('widgets/./badge') in either order"))
